@@ -1598,8 +1598,16 @@ void DOMLSSerializerImpl::procUnrepCharInCdataSection(const XMLCh*   const nodeV
 
             while (srcPtr < endPtr)
             {
-                // Build a char ref for the current char
-                XMLString::binToText(*srcPtr, &tmpBuf[3], 8, 16, fMemoryManager);
+                // Build a char ref for the current char; a surrogate pair
+                // stands for one character and gets one reference
+                unsigned int codePoint = *srcPtr;
+                if ((codePoint & 0xFC00) == 0xD800 && (srcPtr + 1 < endPtr)
+                    && ((*(srcPtr + 1) & 0xFC00) == 0xDC00))
+                {
+                    codePoint = 0x10000 + ((codePoint - 0xD800) << 10) + (*(srcPtr + 1) - 0xDC00);
+                    srcPtr++;   // now at the low surrogate (advanced again below)
+                }
+                XMLString::binToText(codePoint, &tmpBuf[3], 8, 16, fMemoryManager);
                 const XMLSize_t bufLen = XMLString::stringLen(tmpBuf);
                 tmpBuf[bufLen] = chSemiColon;
                 tmpBuf[bufLen+1] = chNull;
